@@ -131,7 +131,9 @@ def _jsgf_runs(tier, extra=()):
         spaces = [['--s1', '5', '--s2', '4,3', '--s3', '3,2,2']]
         n = 48
     return [dict(h='mc_jsgf', label='jsgf-%s-shard%d' % ('-'.join(sp[1::2]), i), args=sp + list(extra) + ['--shard', '%d/%d' % (i, n)])
-            for sp in spaces for i in range(n)]
+            for sp in spaces for i in range(n)] + [
+        # grammar files that import rules from each other: 4 importer bodies x 3 local rules x 4 imported bodies x 3 private rules x 2 import forms
+        dict(h='mc_jsgf', label='jsgf-import-files', args=['--imports'])]
 
 
 SYM3 = 'SIL,AH,G,OW,N,_'
